@@ -1,7 +1,7 @@
 """C01 -- a planted corpus document is found whole at confidence 1.0.  M: V2Match (candidate stage as built: PlantIsCandidate, InBounds).  G: every small (document, input) pair through the real stage functions.  T: plants in OOV context, positions from white-box piece tokenisation, TraceV2 PlantedFound."""
 import time
 from lib import vlib
-from checks.v2common import pad_leg, Acc, trace_leg, match_model, match_replay
+from checks.v2common import retain_legs, pad_leg, Acc, trace_leg, match_model, match_replay
 PID = "C01"
 def run():
     t0 = time.time(); v = vlib.Verdict(PID); acc = Acc()
@@ -9,6 +9,7 @@ def run():
     match_model(acc, ["T80", "T70"] + (["T50", "T100"] if th else []))          # PlantIsCandidate on the mechanism spec
     match_replay(v, acc, ["T80"], 4, 6)                                          # spec = code on every small (K, T)
     match_replay(v, acc, ["T70"] + (["T100"] if th else []), 4 if th else 3, 6 if th else 5)
+    retain_legs(v, acc, vlib.TIER == "thorough")                  # the overlap filter: every small candidate set injected into the real match()
     pad_leg(v, acc)                                       # the read buffer under the tokenizer: multi-byte text at every alignment
     recs, lines = trace_leg(v, acc, "c01", [PID])
     plants = [r for r in lines if r.get("ev") == "plant"]
